@@ -283,6 +283,20 @@ func Exists(vars []Term, body Term) Term {
 	return Term{sb.String(), SBool}
 }
 
+// Ix: the absolute index of element i of a view starting at off. An uninterpreted wrapper (with the
+// defining axiom in the prelude) keeps quantifier triggers free of arithmetic.
+func Ix(off, i Term) Term {
+	if off.S == "0" {
+		return i
+	}
+	if _, ok := isIntLit(off); ok {
+		if _, ok2 := isIntLit(i); ok2 {
+			return Add(off, i)
+		}
+	}
+	return app(SInt, "ix", off, i)
+}
+
 // ctorArg returns the i-th argument of a constructor application "(ctor a0 a1 ...)".
 func ctorArg(t Term, ctor string, i int) (string, bool) {
 	s := t.S
@@ -363,6 +377,8 @@ const smtPrelude = `(declare-datatypes ((Str 0)) (((mkstr (sarr (Array Int Int))
 (declare-datatypes ((Slice 0)) (((mkslice (lref Int) (loff Int) (llen Int) (lcap Int)))))
 (declare-datatypes ((Iface 0)) (((mkiface (ityp Int) (ival Int)))))
 (declare-sort F64 0)
+(declare-fun ix (Int Int) Int)
+(assert (forall ((o Int) (i Int)) (! (= (ix o i) (+ o i)) :pattern ((ix o i)))))
 `
 
 // ---------------------------------------------------------------------------------------------
@@ -420,7 +436,7 @@ var solverDefs = []solverDef{
 	}},
 }
 
-func (q *Query) text(sliced bool, wantModel bool, forCvc5 bool) string {
+func (q *Query) text(sliced bool, wantModel bool, qfOnly bool) string {
 	var sb strings.Builder
 	if wantModel {
 		sb.WriteString("(set-option :produce-models true)\n")
@@ -428,6 +444,15 @@ func (q *Query) text(sliced bool, wantModel bool, forCvc5 bool) string {
 	sb.WriteString("(set-logic ALL)\n")
 	sb.WriteString(smtPrelude)
 	asserts := q.Asserts
+	if qfOnly {
+		var qf []Term
+		for _, a := range asserts {
+			if !strings.Contains(a.S, "(forall ") && !strings.Contains(a.S, "(exists ") {
+				qf = append(qf, a)
+			}
+		}
+		asserts = qf
+	}
 	goal := q.Goal
 	var keep []bool
 	used := map[string]bool{}
@@ -591,16 +616,20 @@ func Discharge(q *Query, timeoutMs int, seed int) SolverResult {
 	base := filepath.Join(outDir, "smt", fmt.Sprintf("q%06d", id))
 	os.MkdirAll(filepath.Dir(base), 0o755)
 
+	qfOnly := false
 	try := func(sliced bool, model bool, tmo int, defs []solverDef) SolverResult {
 		file := base
 		if sliced {
 			file += "_s"
 		}
+		if qfOnly {
+			file += "_q"
+		}
 		if model {
 			file += "_m"
 		}
 		file += ".smt2"
-		txt := "; " + q.Name + "\n" + q.text(sliced, model, false)
+		txt := "; " + q.Name + "\n" + q.text(sliced, model, qfOnly)
 		os.WriteFile(file, []byte(txt), 0o644)
 		type res struct {
 			SolverResult
@@ -652,8 +681,16 @@ func Discharge(q *Query, timeoutMs int, seed int) SolverResult {
 		return best
 	}
 
-	// stage 1: sliced, fast solver only, short timeout
+	// stage 0: quantifier-free hypotheses only, sliced, fast solver (most safety obligations)
 	fast := []solverDef{solverDefs[0]}
+	qfOnly = true
+	r0 := try(true, false, 2000, fast)
+	qfOnly = false
+	if r0.Status == "unsat" {
+		cleanupQueryFiles(base)
+		return r0
+	}
+	// stage 1: sliced, fast solver only, short timeout
 	short := 3000
 	if short > timeoutMs {
 		short = timeoutMs
@@ -823,4 +860,34 @@ func sortedKeys[V any](m map[string]V) []string {
 	}
 	sort.Strings(ks)
 	return ks
+}
+
+// splitArgs splits the arguments of an application "(op a b c)" at top level.
+func splitArgs(s string, op string) ([]string, bool) {
+	if !strings.HasPrefix(s, "("+op+" ") || !strings.HasSuffix(s, ")") {
+		return nil, false
+	}
+	body := s[len(op)+2 : len(s)-1]
+	var out []string
+	depth := 0
+	start := 0
+	inBar := false
+	for j := 0; j <= len(body); j++ {
+		if j == len(body) || (body[j] == ' ' && depth == 0 && !inBar) {
+			if j > start {
+				out = append(out, body[start:j])
+			}
+			start = j + 1
+			continue
+		}
+		switch body[j] {
+		case '(':
+			depth++
+		case ')':
+			depth--
+		case '|':
+			inBar = !inBar
+		}
+	}
+	return out, true
 }
